@@ -357,7 +357,13 @@ def gen_table(g, name, big):
     scheme = rng.choice([('k', 'v', 's'), ('id', 'val', 'str'),
                          ('k', 'v', 's')])
     keytype = rng.choice(['int', 'int', 'str'])
-    str_dt = 'str' if rng.random() < prof['str_dtype'] else 'object'
+    x = rng.random()
+    if x < prof['str_dtype'] * 0.7:
+        str_dt = 'str'
+    elif x < prof['str_dtype']:
+        str_dt = 'string'          # nullable string dtype (pd.NA)
+    else:
+        str_dt = 'object'
     cols = [scheme[0], scheme[1], scheme[2]]
     dtypes = {scheme[0]: 'int64' if keytype == 'int' else
               (str_dt if rng.random() < 0.5 else 'object'),
@@ -366,6 +372,13 @@ def gen_table(g, name, big):
     cols.append('num')
     dtypes['num'] = 'int64'
     extras.append('num')
+    k2 = None
+    if rng.random() < 0.3:
+        # a second column that is a key as well (unique, no missing values)
+        k2 = 'code'
+        cols.append(k2)
+        dtypes[k2] = rng.choice(['int64', 'object'])
+        extras.append(k2)
     if rng.random() < prof['extras']:
         for cname, dt in (('f', 'float64'), ('b', 'bool'), ('d', 'datetime'),
                           ('o', 'object')):
@@ -376,7 +389,11 @@ def gen_table(g, name, big):
     order = list(cols)
     if rng.random() < 0.6:
         rng.shuffle(order)
-    if keytype == 'int':
+    if keytype == 'int' and rng.random() < 0.08:
+        # integer keys beyond 2**53: neighbours collide when cast to float
+        keys = [2 ** 53 + i for i in rng.sample(range(1, max(60, 3 * n + 5)),
+                                                n)]
+    elif keytype == 'int':
         keys = rng.sample(range(0, max(60, 3 * n + 5)), n)
     else:
         keys = ['%s%d' % (rng.choice(['a', 'b', 'x']), i)
@@ -411,6 +428,9 @@ def gen_table(g, name, big):
                                    for _ in range(rng.randint(0, 9)))
                 row[col] = perturb_string(rng, base, g.chars)
         row['num'] = rng.randint(-5, 50)
+        if k2:
+            row[k2] = (1000 + 7 * i) if dtypes[k2] == 'int64' else \
+                'c%03d' % (5 * i + 1)
         if 'f' in dtypes:
             row['f'] = None if rng.random() < 0.2 else \
                 rng.choice([0.5, 1.0, -2.25, 3.0, 1e-3])
@@ -436,38 +456,53 @@ def gen_table(g, name, big):
     g.case['tables'][name] = spec
     meta = {'name': name, 'key': scheme[0], 'v': scheme[1], 's': scheme[2],
             'keytype': keytype, 'extras': extras, 'n': n, 'cols': order,
-            'str_dt': str_dt}
+            'str_dt': str_dt, 'key2': k2,
+            'key2type': ('int' if k2 and dtypes[k2] == 'int64' else 'str')}
     g.tables.append(meta)
     return meta
 
 
 def add_rows(g, meta, values, col):
     """Append rows (for tight-pair scenarios) carrying `values` in column col
-    ('v' or 's'); other cells filled in."""
+    ('v' or 's') of the (possibly viewed) table; other cells filled in.
+    Returns the values of the view's key column for the new rows."""
     rng = g.rng
-    spec = g.case['tables'][meta['name']]
-    used = set(r[spec['columns'].index(meta['key'])] for r in spec['rows'])
+    base = meta.get('_base', meta)
+    spec = g.case['tables'][base['name']]
+    cols = spec['columns']
+    kcol = base['key']
+    used = set(r[cols.index(kcol)] for r in spec['rows'])
+    used2 = set(r[cols.index('code')] for r in spec['rows']) \
+        if 'code' in cols else set()
     new_keys = []
     for val in values:
-        if meta['keytype'] == 'int':
+        if base['keytype'] == 'int':
             k = max([u for u in used] + [0]) + rng.randint(1, 3)
         else:
             k = 'z%d' % (len(used) + rng.randint(100, 999))
             while k in used:
                 k = k + 'z'
         used.add(k)
-        new_keys.append(k)
         row = []
-        for c in spec['columns']:
-            if c == meta['key']:
+        for c in cols:
+            if c == kcol:
                 row.append(k)
             elif c == meta[col]:
                 row.append(val)
-            elif c in (meta['v'], meta['s']):
+            elif c in (base['v'], base['s']):
                 row.append(rng.choice(['', 'a', None]) if rng.random() < 0.5
                            else 'ab')
             elif c == 'num':
                 row.append(rng.randint(0, 9))
+            elif c == 'code':
+                if spec['dtypes'][c] == 'int64':
+                    c2 = max([u for u in used2] + [5000]) + 11
+                else:
+                    c2 = 'cz%04d' % (len(used2) + 1)
+                    while c2 in used2:
+                        c2 += 'z'
+                used2.add(c2)
+                row.append(c2)
             elif c == 'f':
                 row.append(0.5)
             elif c == 'b':
@@ -476,6 +511,7 @@ def add_rows(g, meta, values, col):
                 row.append('2020-02-02')
             else:
                 row.append('x')
+        new_keys.append(row[cols.index(meta['key'])])
         pos = rng.randint(0, len(spec['rows']))
         spec['rows'].insert(pos, row)
         idx = spec['index']
@@ -483,7 +519,8 @@ def add_rows(g, meta, values, col):
             lab = rng.choice([len(idx) + 200, 'n%d' % len(idx)]) \
                 if any(isinstance(i, str) for i in idx) else len(idx) + 200
             idx.insert(pos, lab)
-    meta['n'] = len(spec['rows'])
+    base['n'] = len(spec['rows'])
+    meta['n'] = base['n']
     return new_keys
 
 
@@ -719,6 +756,22 @@ def gen_variants(g, op, lmeta, rmeta):
 # ops
 # ---------------------------------------------------------------------------
 
+def table_view(g, base, same_as=None):
+    """How an op looks at a table: normally as generated; sometimes through
+    its second key column, and - when the same DataFrame is used as left and
+    right table - with the other string column as the attribute."""
+    rng = g.rng
+    v = dict(base)
+    v['_base'] = base
+    if base.get('key2') and rng.random() < (0.45 if same_as is not None
+                                            else 0.1):
+        v['key'] = base['key2']
+        v['keytype'] = base['key2type']
+    if same_as is not None and rng.random() < 0.3:
+        v['v'], v['s'] = base['s'], base['v']
+    return v
+
+
 def pick_tables(g):
     rng = g.rng
     l = rng.choice(g.tables)
@@ -726,7 +779,9 @@ def pick_tables(g):
     if len(g.tables) >= 2 and rng.random() < 0.85:
         while r['name'] == l['name']:
             r = rng.choice(g.tables)
-    return l, r
+    if r['name'] == l['name']:
+        return table_view(g, l), table_view(g, l, same_as=l)
+    return table_view(g, l), table_view(g, r)
 
 
 def pick_tok(g, want=None, mode=None):
@@ -852,6 +907,10 @@ def gen_join(g):
         op['l_out'] = lo
     if ro is not None or rng.random() < 0.5:
         op['r_out'] = ro
+    if lo and rng.random() < 0.2 and all(a in r['cols'] for a in lo):
+        # one list object passed for both l_out_attrs and r_out_attrs
+        op['r_out'] = list(lo)
+        op['same_out_object'] = True
     op.update(prefixes(g))
     op['score'] = rng.random() < 0.75
     common(g, op, l, r, op['l_attr'], op['r_attr'], r['n'])
@@ -1412,8 +1471,21 @@ def generate(prop, seed, run, overrides=None):
         idx = len(case['history'])
         case['history'].append(op)
         if op['op'] in ('join', 'filter_tables') and 'fault' not in op:
-            lm = [m for m in g.tables if m['name'] == op['l']][0]
-            rm = [m for m in g.tables if m['name'] == op['r']][0]
+            lm = dict([m for m in g.tables if m['name'] == op['l']][0])
+            rm = dict([m for m in g.tables if m['name'] == op['r']][0])
+            for m2, kk, ak in ((lm, 'l_key', 'l_attr'), (rm, 'r_key',
+                                                          'r_attr')):
+                m2['_base'] = [m for m in g.tables
+                               if m['name'] == m2['name']][0]
+                if op[kk] != m2['key']:
+                    m2['key'] = op[kk]
+                    m2['keytype'] = m2['key2type']
+                if op[ak] == m2['s'] and \
+                        g.case['tokenizers'].get(op.get('tok'), {}) and \
+                        isinstance(g.case['tokenizers'].get(op.get('tok')),
+                                   dict) and \
+                        g.case['tokenizers'][op['tok']]['kind'] != 'qgram':
+                    m2['v'], m2['s'] = m2['s'], m2['v']
             g.results_candsets.append((idx, lm, rm, op.get('l_prefix', 'l_'),
                                        op.get('r_prefix', 'r_')))
         if prof.get('siblings') and 'fault' not in op and \
